@@ -83,7 +83,7 @@ namespace F3
 def exponent (f : F3) : Int := CC.Fmt.exponent f.value f.precision
 def mantissa (f : F3) : Int := fp_mantissa f.value f.exponent
 def isZero (f : F3) : Bool := fp_is_zero f.value f.exponent f.minExp
-def isInf (f : F3) : Bool := fp_is_inf f.value f.exponent f.maxExp
+def isInf (f : F3) : Bool := fp_is_inf f.value f.precision f.exponent f.maxExp
 def exponent3 (f : F3) : Int := f3_exponent3 f.precision f.exponent
 def mantissa3 (f : F3) : Rat := f3_mantissa3 f.mantissa f.exponent f.exponent3
 end F3
@@ -100,13 +100,19 @@ def SFCfg.value3 (c : SFCfg) (v : Rat) : F3 :=
   { value := v, precision := c.precision,
     minExp := sf_value3_min_exp c.usePrefix c.table, maxExp := sf_value3_max_exp c.usePrefix c.table }
 
-/-- the mantissa text of `ScientificFloat.__str__` (Utils.py:108-113) -/
+/-- Python `round(x, n)` for `n ≥ 0`: `x` rounded (half-even on the exact value) to `n` decimals -/
+def roundTo (x : Rat) (n : Nat) : Rat := ((rhe (x * pow10 n) : Int) : Rat) / pow10 n
+
+/-- the mantissa text of `ScientificFloat.__str__`: the number of decimals is fixed from the unrounded
+scaled mantissa, then the digits are taken from the mantissa *rounded to those decimals* (so that a float
+product such as 7.999999999999999 prints as 8.000…; /repo 8387fb8) -/
 def mantissaText (m3 : Rat) (precision : Nat) : List Char :=
   let am := qabs m3
   let pre := if am < 1 then 0 else numDigits am.floor.toNat
   let post := precision - pre                       -- max(precision - pre, 0)
-  let preDec := trunc m3
-  let postDec := (rhe (frac am * pow10 post)).toNat
+  let r := roundTo m3 post                          -- mantissa3 = round(self.value3.mantissa3, post)
+  let preDec := trunc r
+  let postDec := (rhe (frac (qabs r) * pow10 post)).toNat
   intStr preDec ++ (if post = 0 then [] else '.' :: zeroPad post postDec)
 
 /-- `ScientificFloat.__str__` (Utils.py:105-114) -/
